@@ -221,14 +221,32 @@ func checkC13(c *Ctx, r *Report) {
 				}
 			}
 			// the limit is read live (an atomic / config read), directly or inside a same-package helper
-			live := derivesFromDeep(limit, nil, func(v ssa.Value, _ dctx) bool {
+			isLiveRead := func(v ssa.Value, _ dctx) bool {
 				c2, ok := v.(*ssa.Call)
 				if !ok {
 					return false
 				}
 				n2 := calleeName(c2)
 				return strings.Contains(n2, "utils/atomics.") && strings.HasSuffix(n2, ").Get") || strings.HasSuffix(n2, "config.ConfigProp).Read") || strings.HasSuffix(n2, ").Load")
-			})
+			}
+			live := derivesFromDeep(limit, nil, isLiveRead)
+			if prm, isP := resolveVal(limit).(*ssa.Parameter); isP && !live && prm.Parent() == f {
+				// the limit is handed in: every caller reads it live for this call
+				pi := -1
+				for i, q := range f.Params {
+					if q == prm {
+						pi = i
+					}
+				}
+				cs := li.Callers[f]
+				live = len(cs) > 0 && pi >= 0
+				for _, site := range cs {
+					c3, okc := asCall(site.in)
+					if !okc || pi >= len(callArgs(c3)) || !derivesFromDeep(callArgs(c3)[pi], nil, isLiveRead) {
+						live = false
+					}
+				}
+			}
 			r.Check(ok && live, "C13.R1", key, c.InstrPos(call), "guarded by byte counter >= "+ls, "evict("+ls+") is not guarded by 'stored bytes >= live limit' (facts: "+strings.Join(keysOf(fs), " ∧ ")+"): eviction below the limit, or against a stale copy of the limit")
 		})
 	}
@@ -390,13 +408,13 @@ func checkC13(c *Ctx, r *Report) {
 			g := rmFn[rm]
 			fs := factStrsCtx(li, g, rm)
 			arg := atomStr(rm.Call.Args[0])
-			okLock := fs["TryLock(getLock("+arg+"))=true"] || lockedBefore(li, g, rm, "Lock(getLock("+arg+"))")
+			okLock := keyTryLocked(fs, arg) || lockedBefore(li, g, rm, "Lock(getLock("+arg+"))") || lockedBefore(li, g, rm, "Lock(getLock(*,"+arg+"))")
 			okExp := fs["isExpired("+arg+")=true"]
 			// the re-check happens after the lock was taken: the isExpired call itself is made with the lock held
 			okOrder := false
 			eachInstr(g, func(in ssa.Instruction) {
 				if x, ok := in.(*ssa.Call); ok && atomStr(x) == "isExpired("+arg+")" {
-					if factStrsCtx(li, g, x)["TryLock(getLock("+arg+"))=true"] || lockedBefore(li, g, x, "Lock(getLock("+arg+"))") {
+					if keyTryLocked(factStrsCtx(li, g, x), arg) || lockedBefore(li, g, x, "Lock(getLock("+arg+"))") || lockedBefore(li, g, x, "Lock(getLock(*,"+arg+"))") {
 						okOrder = true
 					}
 				}
@@ -469,14 +487,47 @@ func checkC13(c *Ctx, r *Report) {
 	// R7: live limit read in ensureCacheSize
 	for _, f := range c.FuncsNamed(janitorT + "ensureCacheSize") {
 		ok := false
-		eachCall(f, func(call ssa.CallInstruction, n string) {
-			if strings.HasSuffix(n, "config.ConfigProp).Read") {
-				_, p := fieldPath(callArgs(call)[0])
-				if len(p) > 0 && p[len(p)-1] == "MaxCacheSize" {
-					ok = true
+		readsLimit := func(g *ssa.Function) bool {
+			found := false
+			eachCall(g, func(call ssa.CallInstruction, n string) {
+				if strings.HasSuffix(n, "config.ConfigProp).Read") {
+					_, p := fieldPath(callArgs(call)[0])
+					if len(p) > 0 && p[len(p)-1] == "MaxCacheSize" {
+						found = true
+					}
+				}
+			})
+			return found
+		}
+		ok = readsLimit(f)
+		if !ok {
+			// the limit may be read by the periodic caller and handed in, once per cycle
+			cs := li.Callers[f]
+			ok = len(cs) > 0
+			for _, site := range cs {
+				c3, okc := asCall(site.in)
+				if !okc {
+					ok = false
+					continue
+				}
+				fromRead := false
+				for _, a := range callArgs(c3) {
+					if derivesFrom(a, func(v ssa.Value) bool {
+						c4, isC := v.(*ssa.Call)
+						if !isC || !strings.HasSuffix(calleeName(c4), "config.ConfigProp).Read") {
+							return false
+						}
+						_, p := fieldPath(callArgs(c4)[0])
+						return len(p) > 0 && p[len(p)-1] == "MaxCacheSize"
+					}) {
+						fromRead = true
+					}
+				}
+				if !fromRead {
+					ok = false
 				}
 			}
-		})
+		}
 		r.Check(ok, "C13.R7", "periodic cycle reads the live max_cache_size", c.Pos(f.Pos()), "cfg.Cache.MaxCacheSize.Read() per cycle", "ensureCacheSize does not read the live limit")
 	}
 }
@@ -489,9 +540,31 @@ func lockedBefore(li *LockInfo, g *ssa.Function, at ssa.Instruction, prefix stri
 	}
 	found := false
 	eachInstr(g, func(in ssa.Instruction) {
-		if x, ok := in.(*ssa.Call); ok && !found && strings.HasPrefix(atomStr(x), prefix) && x.Parent() == at.Parent() && instrDominates(x, at) {
-			found = true
+		if x, ok := in.(*ssa.Call); ok && !found && x.Parent() == at.Parent() && instrDominates(x, at) {
+			a := atomStr(x)
+			if strings.HasPrefix(a, prefix) {
+				found = true
+			}
+			// "Lock(getLock(*,key))": the lock getter may take the shard slice as well (getLock(locks, key))
+			if i := strings.Index(prefix, "(*,"); i > 0 && strings.HasPrefix(a, prefix[:i+1]) && strings.HasSuffix(a, ","+prefix[i+3:]) {
+				found = true
+			}
 		}
 	})
 	return found
+}
+
+// keyTryLocked: among the facts, a successful TryLock of the shard lock of key arg — TryLock(getLock(key)) or
+// TryLock(getLock(<shards>, key)), whatever the lock getter is handed besides the key.
+func keyTryLocked(fs map[string]bool, arg string) bool {
+	for k := range fs {
+		if !strings.HasPrefix(k, "TryLock(") || !strings.HasSuffix(k, "=true") {
+			continue
+		}
+		inner := strings.TrimSuffix(strings.TrimPrefix(k, "TryLock("), ")=true")
+		if strings.HasSuffix(inner, "("+arg+")") || strings.HasSuffix(inner, ","+arg+")") {
+			return true
+		}
+	}
+	return false
 }
